@@ -110,6 +110,7 @@ func setupGenStubs() map[string]string {
 		"Gen_Radix.tla":      "---- MODULE Gen_Radix ----\nGenPool == << <<\"/\">> >>\nGenMaxRoutes == 1\n====\n",
 		"Gen_Lookup.tla":     "---- MODULE Gen_Lookup ----\nGenPool == << <<\"/\">> >>\nGenPaths == << <<\"/\">> >>\nGenHosts == << <<\"a\">> >>\nGenMaxTab == 1\nGenEnumN == 1\nGenExtraTables == {}\nGenFixes == {}\n====\n",
 		"Gen_Cow.tla":        "---- MODULE Gen_Cow ----\nGenPool == << <<\"/\">> >>\nGenMaxRoutes == 1\nGenMaxSnaps == 1\nGenMaxHist == 1\nGenVariant == \"none\"\n====\n",
+		"Gen_Roots.tla":      "---- MODULE Gen_Roots ----\nGenCommon == <<\"GET\">>\nGenCustom == {\"FOO\"}\nGenMaxCnt == 1\nGenVariant == \"none\"\n====\n",
 		"trace.ndjson":       "",
 		"obs.ndjson":         "",
 	}
